@@ -2,6 +2,7 @@ package props
 
 import (
 	"context"
+	"errors"
 	"fmt"
 	"io"
 	"math/rand/v2"
@@ -673,9 +674,13 @@ func TestC13(t *testing.T) {
 //     connection's registry stays usable afterwards: removers and Subscribe calls return, a later
 //     Connect dispatches to exactly the callbacks subscribed then.
 func c13InDispatch(r *fw.Run, key string, rng *rand.Rand) {
-	mode := []string{"removers", "removers", "panic", "nilcb"}[rng.IntN(4)]
+	mode := []string{"removers", "removers", "panic", "nilcb", "cancel"}[rng.IntN(5)]
 	if mode == "nilcb" {
 		c13NilCallback(r, key, rng)
+		return
+	}
+	if mode == "cancel" {
+		c13CancelInDispatch(r, key, rng)
 		return
 	}
 	triggerTyped := rng.IntN(2) == 0 // trigger subscribed to the type and target to all, or the other way round
@@ -990,5 +995,69 @@ loop:
 	wg.Wait()
 	if seen.Load() != nEvents {
 		r.Violation(key, []string{"callback_missed_event"}, map[string]any{"seen": seen.Load()}, "C13: the long-lived subscribe-to-all callback saw %d of %d events under churn", seen.Load(), nEvents)
+	}
+}
+
+// c13CancelInDispatch: a callback cancels the request's context while its event is being
+// dispatched: the event is still passed to every other callback subscribed to it.
+func c13CancelInDispatch(r *fw.Run, key string, rng *rand.Rand) {
+	triggerTyped := rng.IntN(2) == 0
+	withCause := rng.IntN(2) == 0
+	nOther := 1 + rng.IntN(3)
+	r.Begin(key, fmt.Sprintf("a callback cancels the request context during dispatch (trigger_typed=%v, cause=%v, %d other callbacks)", triggerTyped, withCause, nOther))
+	rt := &scriptedRT{bodies: func(int, *http.Request) (io.Reader, error) {
+		return strings.NewReader("event: t1\ndata: 0\n\nevent: t1\ndata: 1\n\n"), nil
+	}}
+	cl := &sse.Client{HTTPClient: &http.Client{Transport: rt}, Backoff: sse.Backoff{MaxRetries: -1}}
+	ctx, cancel := context.WithCancel(context.Background())
+	if withCause {
+		c2, cc := context.WithCancelCause(context.Background())
+		ctx, cancel = c2, func() { cc(errors.New("done with this stream")) }
+	}
+	defer cancel()
+	req, _ := http.NewRequestWithContext(ctx, http.MethodGet, "http://verif.invalid/", http.NoBody)
+	conn := cl.NewConnection(req)
+	sawFirst := make([]int, 2*nOther)
+	trigger := func(e sse.Event) {
+		if e.Data == "0" {
+			cancel()
+		}
+	}
+	other := func(k int) func(sse.Event) {
+		return func(e sse.Event) {
+			if e.Data == "0" {
+				sawFirst[k]++
+			}
+		}
+	}
+	// other callbacks of both kinds are subscribed before and after the one that cancels
+	for k := 0; k < nOther; k++ {
+		if k%2 == 0 {
+			conn.SubscribeEvent("t1", other(k))
+		} else {
+			conn.SubscribeToAll(other(k))
+		}
+	}
+	if triggerTyped {
+		conn.SubscribeEvent("t1", trigger)
+	} else {
+		conn.SubscribeToAll(trigger)
+	}
+	for k := nOther; k < 2*nOther; k++ {
+		if k%2 == 0 {
+			conn.SubscribeEvent("t1", other(k))
+		} else {
+			conn.SubscribeToAll(other(k))
+		}
+	}
+	conn.Connect()
+	r.Count("in_dispatch_scenarios", 1)
+	r.Eval(fw.Hash("T-cancel", fmt.Sprint(triggerTyped, withCause, nOther)), true)
+	for k, n := range sawFirst {
+		if n != 1 {
+			r.Violation(key, []string{"callback_missed_event", "cancel_inside_dispatch"}, map[string]any{"trigger_typed": triggerTyped, "calls_for_the_event_per_callback": sawFirst},
+				"C13: a callback cancelled the request context while event #0 was being dispatched: callback %d of %d others was given that event %d times (want 1 each: %v)", k, len(sawFirst), n, sawFirst)
+			break
+		}
 	}
 }
